@@ -1,7 +1,7 @@
 #!/bin/bash
 # usage: try_seed.sh <property id> <diff> [tier]
 # Applies a seeded change to /repo, runs the property's check, and restores /repo.
-ID=$1; DIFF=$2; TIER=${3:-quick}
+ID=$1; DIFF=$(realpath "$2"); TIER=${3:-quick}
 cd /repo || exit 2
 [ -z "$(git status --porcelain)" ] || { echo "/repo not clean"; exit 2; }
 git apply "$DIFF" || { echo "diff does not apply"; exit 2; }
